@@ -302,17 +302,17 @@ String Var::toString() const
 	return r;
 }
 
-// true if this is an array or object that no other Var shares and that holds arrays or objects itself
+// true if this is an array or object that holds arrays or objects itself
 
-bool Var::ownsNested() const
+bool Var::holdsNested() const
 {
-	if (_type == ARRAY && _a->rc() == 1)
+	if (_type == ARRAY)
 	{
 		for (int i = 0; i < _a->length(); i++)
 			if ((*_a)[i]._type == ARRAY || (*_a)[i]._type == OBJ)
 				return true;
 	}
-	else if (_type == OBJ && _o->kv().rc() == 1)
+	else if (_type == OBJ)
 	{
 		for (int i = 0; i < _o->kv().length(); i++)
 			if (_o->kv()[i].value._type == ARRAY || _o->kv()[i].value._type == OBJ)
@@ -321,8 +321,21 @@ bool Var::ownsNested() const
 	return false;
 }
 
+// the same, and no other Var shares it
+
+bool Var::ownsNested() const
+{
+	if (_type == ARRAY && _a->rc() != 1)
+		return false;
+	if (_type == OBJ && _o->kv().rc() != 1)
+		return false;
+	return holdsNested();
+}
+
 // moves the elements or properties of this array or object that hold nested containers of their own to `pending`,
-// leaving none in their place (the others are released by the container itself, one level deep)
+// leaving none in their place (the others are released by the container itself, one level deep). Shared ones are moved
+// too, with their count untouched: the other handles may all be inside the tree that is being released, and whichever
+// of them turns out to be the last takes over the nested containers when it is popped.
 
 void Var::detachNested(Array<Var>& pending)
 {
@@ -330,10 +343,10 @@ void Var::detachNested(Array<Var>& pending)
 	for (int i = 0; i < n; i++)
 	{
 		Var& x = (_type == ARRAY) ? (*_a)[i] : _o->kv()[i].value;
-		if (x.ownsNested())
+		if (x.holdsNested())
 		{
-			pending << x; // a second handle: x.free() below only drops a reference
-			x.free();
+			pending << Var();
+			bswap(pending.last(), x);
 		}
 	}
 }
